@@ -71,7 +71,7 @@ def gen_history(rng, tag, nops):
     for _ in range(nops):
         r = rng.random()
         if r < 0.45 or not ops:
-            kind = rng.choice(["dir", "dir", "subdir", "file", "files", "repeat"])
+            kind = rng.choice(["dir", "dir", "subdir", "file", "files", "repeat", "single"])
             if kind == "repeat" and last_lint:
                 ops.append(dict(last_lint))
                 continue
@@ -81,6 +81,9 @@ def gen_history(rng, tag, nops):
                 op = {"op": "lint", "target": rng.choice(["src", "pkg"])}
             elif kind == "file":
                 op = {"op": "lint", "target": rng.choice(sorted(pool))}
+            elif kind == "single":
+                # the documented one-file entry point of the orchestrator (Orchestrator.lint_file); for the Linter API: lint(<file>)
+                op = {"op": "lint", "target": rng.choice(sorted(pool)), "single": True}
             else:
                 k = sorted(state)
                 op = {"op": "lint_files", "targets": rng.sample(k, rng.randint(1, len(k))) if k else []}
@@ -121,6 +124,10 @@ def pinned_history(rng, tag, which="plain"):
     born, plan = PINNED[which]
     init = {k: v[born.get(k, 0)] for k, v in pool.items() if k != "pkg/more.py"}
     ops = [{"op": "lint", "target": "."}] + [{"op": "lint", "target": f} for f in sorted(born)]
+    # the one-file entry point, then a run over the OTHER files: what the first call saw must not come back in the second
+    for f in sorted(init):
+        ops.append({"op": "lint", "target": f, "single": True})
+        ops.append({"op": "lint_files", "targets": [g for g in sorted(init) if g != f]})
     for f, idxs in plan:
         for i in idxs:
             ops.append({"op": "write", "file": f, "content": pool[f][i]})
@@ -177,7 +184,7 @@ def history_case(case):
                     if p.is_dir():
                         vs = obj.lint_directory(p)
                     elif p.is_file():
-                        vs = obj.lint_files([p])
+                        vs = obj.lint_file(p) if op.get("single") else obj.lint_files([p])
                     else:
                         vs = []
                 else:
@@ -215,7 +222,7 @@ def spec_case(arg):
             o = Orchestrator(project_root=Path(root))
             if op["op"] == "lint":
                 p = Path(root) / op["target"]
-                vs = o.lint_directory(p) if p.is_dir() else o.lint_files([p]) if p.is_file() else []
+                vs = o.lint_directory(p) if p.is_dir() else (o.lint_file(p) if op.get("single") else o.lint_files([p])) if p.is_file() else []
             else:
                 vs = o.lint_files([Path(root) / t for t in op["targets"] if (Path(root) / t).exists()])
         return {"v": sorted(vtuple(v, root) for v in vs)}
